@@ -46,6 +46,10 @@ MUT = [
  ('m30-storage-ctor-cursor-one', S + 'serialize_storage.h', 'size_t cursor = 0;', 'size_t cursor = 1;'),
  ('m31-long-double-image-not-zeroed', S + 'archive.h', 'char image[sizeof(i)] = {};', 'char image[sizeof(i)];'),
  ('m32-protocol-long-double-copies-whole-object', S + 'serialize_protocol.h', 'memcpy(image, &obj, 10);', 'memcpy(image, &obj, sizeof(image));'),
+ ('m33-vector-reader-no-increment', S + 'stdtypes.h', 'for (int i = 0; i < size; i++)\n            {\n                T value;', 'for (int i = 0; i < size;)\n            {\n                T value;'),
+ ('m34-dump-buffer-one-byte-too-many', S + 'archive.h', 'dump((uint16_t)buf.size());\n                dump_data(buf.data(), buf.size());\n            }\n\n#if', 'dump((uint16_t)buf.size());\n                dump_data(buf.data(), buf.size() + 1);\n            }\n\n#if'),
+ ('m35-map-reader-inserts-key-only', S + 'stdtypes.h', 'map.insert(std::make_pair(first, second));', 'map.insert(std::make_pair(first, T()));'),
+ ('m36-load-writable-buffer-reads-len-bytes', S + 'archive.h', 'load_data((char *)buf.data(), readsize);', 'load_data((char *)buf.data(), len);'),
 ]
 def main():
     pat = sys.argv[1] if len(sys.argv) > 1 else ''
